@@ -127,6 +127,27 @@ def rule_u1(chk: Check):
                         not any(isinstance(n, ast.Attribute) and isinstance(n.value, ast.Name) and n.value.id == "self" for n in ast.walk(fn))
                     chk.require(ok, "U1-cached-pure", f"{rel}:{q}", f"{rel}:{fn.lineno}",
                                 f"a process-wide cache must wrap a pure function of its arguments (free names: {sorted(free - params)})")
+                    # ... and what it hands out is shared by every caller: it must not be a one-shot or mutable object
+                    gens = {g.name for g in ast.walk(mod) if isinstance(g, (ast.FunctionDef, ast.AsyncFunctionDef))
+                            and any(isinstance(y, (ast.Yield, ast.YieldFrom)) for y in ast.walk(g))}
+                    stateful = {"iter", "map", "filter", "zip", "open", "StringIO", "list", "dict", "set", "bytearray", "reversed", "enumerate"}
+                    why = ""
+                    ann = norm_stmt(fn.returns) if fn.returns is not None else ""
+                    if any(w in ann for w in ("Iterator", "Generator", "Iterable", "list[", "dict[", "set[", "List[", "Dict[", "Set[")):
+                        why = f"its return annotation is `{ann}`"
+                    for r in [n for n in ast.walk(fn) if isinstance(n, ast.Return) and n.value is not None]:
+                        v = r.value
+                        if isinstance(v, (ast.List, ast.Dict, ast.Set, ast.ListComp, ast.DictComp, ast.SetComp, ast.GeneratorExp)):
+                            why = f"it returns the mutable/one-shot object `{norm_stmt(v)[:50]}`"
+                        if isinstance(v, ast.Call):
+                            callee = norm_stmt(v.func).split(".")[-1]
+                            if callee in gens:
+                                why = f"it returns the generator object of `{callee}` (consumed by the first caller, empty or half-read for the next)"
+                            elif callee in stateful:
+                                why = f"it returns a `{callee}` object (one-shot or mutable)"
+                    chk.count("U1-cached-pure")
+                    chk.require(not why, "U1-cached-pure", f"{rel}:{q}:value", f"{rel}:{fn.lineno}",
+                                f"a cached function's result is shared by all callers, but {why}")
     chk.floor("U1-module-state", 450)
     chk.floor("U1-cached-pure", 1)
     # embedded positive example
